@@ -43,6 +43,18 @@ def unflat(items, outcomes):
     return out
 
 
+def _internal_detail(e):
+    """Error lines for an exception that escaped from the compiler (same marker as Cython's own CompilerCrash text)."""
+    import traceback
+    tb = traceback.extract_tb(e.__traceback__)
+    where = ""
+    for fr in reversed(tb):
+        if "/Cython/" in fr.filename:
+            where = " at %s:%s" % (os.path.basename(fr.filename), fr.name)
+            break
+    return ["Compiler crash (internal %s%s): %s" % (type(e).__name__, where, str(e)[:300])]
+
+
 def run_batch(items, name, outdir, header=PY_HEADER, ext=".py", directives=None, options=None, cplus=False,
               flags=None, defines=None, sanitize=False, env=None, reference=True, setup=None,
               extra=None, timeout=300, keep_c=False, run_env=None, always_log=False):
@@ -61,6 +73,10 @@ def run_batch(items, name, outdir, header=PY_HEADER, ext=".py", directives=None,
     except cybuild.CCError as e:
         res.status = "ccerror"
         res.detail = str(e)[-3000:]
+        return res
+    except Exception as e:       # internal exception of the compiler that was not wrapped into a CompileError
+        res.status = "cyerror"
+        res.detail = _internal_detail(e)
         return res
     res.so_path = so
     res.c_path = os.path.join(d, name + (".cpp" if cplus else ".c"))
@@ -113,10 +129,10 @@ def run_batch_isolating(items, name, outdir, **kw):
                 cybuild.cython_compile(pth, cplus=kw.get("cplus", False), directives=kw.get("directives"),
                                        options=kw.get("options"))
                 good.append(it)
-            except cybuild.CythonError as e:
+            except Exception as e:
                 r = BatchResult()
                 r.status = "cyerror"
-                r.detail = e.errors[:40]
+                r.detail = e.errors[:40] if isinstance(e, cybuild.CythonError) else _internal_detail(e)
                 r.src = render([it], header)
                 yield [it], r
             except Exception as e:   # internal compiler exception
